@@ -43,10 +43,14 @@ slices = [
   dict(n="slice0b", pre="a", open="[", rest="1:2:0]"),
   dict(n="slice_in_call", pre="length(`[1]`", open="[", rest=":1:0])"),
   dict(n="slice_after_call", pre="not_null(length('é')) | @", open="[", rest="0::0]"),
+  dict(n="slice_then_field", pre="a", open="[", rest="::0]", tail=".b"),
+  dict(n="slice_then_index", pre="a", open="[", rest="1::0]", tail="[0].b"),
+  dict(n="slice_then_star", pre="length(a", open="[", rest="::0]", tail="[*])"),
+  dict(n="slice_in_expref", pre="map(&", open="[", rest="::0]", tail=".x, `[[1]]`)"),
 ]
 out = os.path.join(VERIF, "spec", "gen", "err_templates.ndjson")
 with open(out, "w") as f:
     f.write(json.dumps({"prefixes": [cps(p) for p in prefixes],
                         "sites": [{"n": s["n"], "pre": cps(s["pre"]), "call": cps(s["call"]), "rest": cps(s["rest"]), "kind": s["kind"]} for s in sites],
-                        "slices": [{"n": s["n"], "pre": cps(s["pre"]), "open": cps(s["open"]), "rest": cps(s["rest"])} for s in slices]}) + "\n")
+                        "slices": [{"n": s["n"], "pre": cps(s["pre"]), "open": cps(s["open"]), "rest": cps(s["rest"]), "tail": cps(s.get("tail", ""))} for s in slices]}) + "\n")
 print("wrote", out)
